@@ -421,3 +421,33 @@ Proof.
   eexists. split; [reflexivity|].
   cbn. reflexivity.
 Qed.
+
+(* ---------- relative update: the match gets the FIRST result of the body applied to it ---------- *)
+Theorem update_first_result ks r doc f n1 pos q qs st2 v :
+  ks <> [] -> (length ks <= f)%nat -> no_wild ks ->
+  viv ks doc = Some (n1, pos) ->
+  eval f r false [] [(O, pos)] (update (init_store doc) (O, []) (fun _ => n1)) = Ok (q :: qs, st2) ->
+  ptr_eqb (O, pos) q = false -> deref st2 q = Some v ->
+  eval (S f) (EUpdate (pk ks) r) false [] [(O, [])] (init_store doc)
+  = Ok ([(O, [])], update st2 (O, pos) (fun _ => v)).
+Proof.
+  intros Hne Hfuel Hw Hv Hr Hneq Hd. cbn [eval].
+  assert (Hd0 : deref (init_store doc) (O, []) = Some doc) by reflexivity.
+  rewrite (eval_pk_rw ks f [] O [] (init_store doc) doc n1 pos Hne Hfuel Hw Hd0 Hv). cbn [bind fst snd app rev Eval.iter].
+  match goal with |- context [eval f r false ?a ?b ?c] => replace (eval f r false a b c) with (@Ok out (q :: qs, st2)) by (symmetry; exact Hr) end.
+  cbn [bind fst snd]. unfold update_from. rewrite Hneq. unfold deref_r. rewrite Hd. reflexivity.
+Qed.
+
+(* no result: the match is left alone *)
+Theorem update_no_result ks r doc f n1 pos st2 :
+  ks <> [] -> (length ks <= f)%nat -> no_wild ks ->
+  viv ks doc = Some (n1, pos) ->
+  eval f r false [] [(O, pos)] (update (init_store doc) (O, []) (fun _ => n1)) = Ok ([], st2) ->
+  eval (S f) (EUpdate (pk ks) r) false [] [(O, [])] (init_store doc) = Ok ([(O, [])], st2).
+Proof.
+  intros Hne Hfuel Hw Hv Hr. cbn [eval].
+  assert (Hd0 : deref (init_store doc) (O, []) = Some doc) by reflexivity.
+  rewrite (eval_pk_rw ks f [] O [] (init_store doc) doc n1 pos Hne Hfuel Hw Hd0 Hv). cbn [bind fst snd app rev Eval.iter].
+  match goal with |- context [eval f r false ?a ?b ?c] => replace (eval f r false a b c) with (@Ok out ([], st2)) by (symmetry; exact Hr) end.
+  reflexivity.
+Qed.
